@@ -163,6 +163,11 @@ def Sess.readHandshake (s : Sess) (w : Wire) : Option Sess :=
     | .respDone eI eR tr, some h =>
       if eI = s.eph ∧ some eR = s.rEph ∧ tr = h then some { s with hs := 4, nonce := noncePostHandshake } else none
     | _, _ => none
+  else if ¬s.isInit ∧ s.hs = 3 ∧ c = 2 then
+    -- a repeated InitDone is only acknowledged if it decrypts under this session's key
+    match w, s.hello, s.rEph with
+    | .initDone eI eR tr _, some h, some e => if eI = e ∧ eR = s.eph ∧ tr = h then some s else none
+    | _, _, _ => none
   else if (s.isInit ∧ c % 2 = 1) ∨ (¬s.isInit ∧ c % 2 = 0) then some s
   else none
 
@@ -263,7 +268,12 @@ abbrev IdLt := Wire → Wire → Bool
 /-- `proposeNewSession` -/
 def Chan.propose (c : Chan) (lt : IdLt) (e : Entry) : Chan × Sess :=
   match c.next with
-  | some old => if lt old.id e.id then (c, old.sess) else
+  | some old =>
+    let keepOld : Bool :=
+      if !old.sess.isInit && !e.sess.isInit && old.sess.helloTime != e.sess.helloTime then
+        e.sess.helloTime < old.sess.helloTime      -- both from the peer's InitHellos: its most recent attempt wins
+      else lt old.id e.id
+    if keepOld then (c, old.sess) else
       ({ c with next := some e, rekeyPending := c.rekeyPending || e.sess.isInit }, e.sess)
   | none => ({ c with next := some e, rekeyPending := c.rekeyPending || e.sess.isInit }, e.sess)
 
